@@ -88,7 +88,7 @@ def split_conc(t):
 
 def conc_scope(k, a):
     if k == 8:
-        return "protocol#%d.peer#%d" % (a // 16, a % 16)
+        return "protocol#%d.peer#%d" % (a // 4096, a % 4096)
     if k == 7:
         return "service#0.peer#%d" % a
     return "%s%s" % (KIND.get(k, "?"), ("#%d" % a) if k >= 4 else "")
@@ -216,7 +216,7 @@ def replay_harness(ctx, casefile, toks):
 if __name__ == "__main__":
     ctx = Ctx("C03")
     ctx.assumptions = [
-        "theorems: every finite sequential history of the whole operation language (incl. gc and the allow-list transfer inside SetPeer) under the property's own quantifier (disciplined = config_wf, op_shape, callers_run), for the whole monitor (mon_run with every check); CONCURRENT executions: theorems c03c_* over the interleaving LTS of Conc.v (holders = connections / streams over an arbitrary scope graph; atomic step = one single-lock section: one check-and-add (rc_reserve) or one release (rc_release) on one scope; operations OReserve / ORelease / ODone / OMove (SetPeer, SetProtocol, SetService, re-charge half of the allow-list transfer) / OUnlink; every schedule): usage == sum of the charges held so far incl. in-flight prefixes, within [0, limit] at every instant, quiescent exactness, a refused operation leaves no residue, and the monitor of case kind 5 accepts every trace of that model. Not in the LTS (correspondence only): span owner chains, gc, the conn limiter under concurrency, the leaf mutex (the LTS serialises the operations of one holder, as the leaf mutex does), whether the real interleavings are exactly those of the LTS (mutexes cannot be hooked without editing /repo: the harness observes Stat() from a sampler goroutine and makes every Limit getter yield inside the critical section)",
+        "theorems: every finite sequential history of the whole operation language (incl. gc and the allow-list transfer inside SetPeer) under the property's own quantifier (disciplined = config_wf, op_shape, callers_run), for the whole monitor (mon_run with every check); CONCURRENT executions: theorems c03c_* over the interleaving LTS of Conc.v (holders = connections / streams over an arbitrary scope graph; atomic step = one single-lock section: one check-and-add (rc_reserve) or one release (rc_release) on one scope; operations OReserve / ORelease / ODone / OMove (SetPeer, SetProtocol, SetService, re-charge half of the allow-list transfer) / OUnlink; every schedule): usage == sum of the charges held so far incl. in-flight prefixes, within [0, limit] at every instant, quiescent exactness, a refused operation leaves no residue, and the monitor of case kind 5 accepts every trace of that model. Not in the LTS (correspondence only): span owner chains, gc, the conn limiter under concurrency, the leaf mutex (the LTS serialises the operations of one holder, as the leaf mutex does); per-peer sub-scopes: lookup-or-create is one atomic step of the registry LTS (ConcReg.v, c03c_one_subscope_per_key, c03c_subscope_quiescent_exact); whether the real interleavings are exactly those of the LTS (mutexes cannot be hooked without editing /repo: the harness observes Stat() from a sampler goroutine and makes every Limit getter yield inside the critical section)",
         "callers release at most what they reserved directly on that scope, priorities 0..255, outstanding memory in total < 2^63 (callers_run; with a MaxInt64 memory limit the code skips the check and int64 would wrap: DESIGN 9 item 13)",
         "limits are non-negative (config_wf); SetLimit / sticky scopes are outside the quantifier and not modelled; metrics, tracing and the connection *rate* limiter are off",
         "IP addresses and prefixes are integers with shift-compare containment (netip/net.IPNet.Contains, manet.ToIP modelled, exercised by the correspondence with real multiaddrs incl. IPv6 and IPv4-mapped IPv6: the conn limiter keys a mapped address as IPv6 in addConn and rmConn, the allow-list unmaps it)",
@@ -241,7 +241,10 @@ if __name__ == "__main__":
              "while a sampler goroutine reads Stat() of system, transient, the allow-listed pair, every peer / protocol / service scope and per-peer sub-scope; every "
              "Limit getter yields inside the critical section; up to 160 samples per run (all suspicious ones, then mid-flight ones) are judged by the extracted "
              "monitor: each counter in [0, limit] and between the charges held through the sampling window and those plus the charges of the operations overlapping it; "
-             "at quiescence Stat() of every shared scope and of every holder == sum over the holders (kind 5). "
+             "at quiescence Stat() of every shared scope and of every holder == sum over the holders (kind 5); "
+             "'first use' rounds: 2-4 streams of a fresh peer call SetProtocol (then SetService) for the same protocol at once behind a barrier, the limiter keeps a caller of "
+             "Get{Protocol,Service}PeerLimits inside until a second one is inside or 4000 yields have passed; the REGISTERED per-peer sub-scopes, peer, protocol, service, transient and system "
+             "scopes must report exactly the sum of the streams charged to them, within the per-peer limits (kind 5). "
              "A case is non-trivial when at least one operation was refused by a limit or cap.",
         describe=describe, key=key, what=what, crosscheck=40,
     ))
